@@ -62,3 +62,17 @@
 (declare-fun falsyUpTo (Tr (Array Int Iface) Int Int Int) Bool)
 (assert (forall ((t Tr) (a (Array Int Iface)) (o Int) (c Int)) (! (falsyUpTo t a o 0 c) :pattern ((falsyUpTo t a o 0 c)))))
 (assert (forall ((t Tr) (a (Array Int Iface)) (o Int) (k Int) (c Int)) (! (=> (> k 0) (= (falsyUpTo t a o k c) (and (falsyUpTo t a o (- k 1) c) (not (fn_toBool_0 c (evalRes (evalsUpTo t a o (- k 1) c) (select a (+ o (- k 1))) c)))))) :pattern ((falsyUpTo t a o k c)))))
+
+; C07: escUpTo(s, k, amp, lt, gt, quot, apos): the escape of the first k bytes of s — each of the five
+; HTML-significant bytes is replaced by its character reference (passed in), every other byte is
+; copied; the references used are those of the fixed five-entry table of the statement
+(declare-fun str_of_byte (Int) Str)
+(define-fun escImg ((b Int) (amp Str) (lt Str) (gt Str) (quot Str) (apos Str)) Str
+  (ite (= b 38) amp (ite (= b 60) lt (ite (= b 62) gt (ite (= b 34) quot (ite (= b 39) apos (str_of_byte b)))))))
+(declare-fun escUpTo (Str Int Str Str Str Str Str) Str)
+(assert (forall ((s Str) (a Str) (l Str) (g Str) (q Str) (p Str)) (! (= (slen (escUpTo s 0 a l g q p)) 0) :pattern ((escUpTo s 0 a l g q p)))))
+(assert (forall ((x Str) (y Str)) (! (=> (and (= (slen x) 0) (= (slen y) 0)) (= x y)) :pattern ((slen x) (slen y)))))
+(assert (forall ((s Str) (k Int) (a Str) (l Str) (g Str) (q Str) (p Str)) (! (=> (> k 0) (= (escUpTo s k a l g q p) (sconcat (escUpTo s (- k 1) a l g q p) (escImg (sat s (- k 1)) a l g q p)))) :pattern ((escUpTo s k a l g q p)))))
+
+; html.EscapeString as an uninterpreted function of its argument (validated only by bounded runs)
+(declare-fun htmlEscape (Str) Str)
